@@ -1,5 +1,6 @@
 import QuantemModel.Core.Proto
 import QuantemModel.Model.Radon
+import QuantemModel.Model.RadonExt
 open Lean QuantemModel QuantemModel.Proto QuantemModel.Radon
 
 namespace DrvC07
@@ -54,6 +55,34 @@ def step (st : Unit) (j : Json) : Unit × Json :=
               let m ← o.getNat?
               pure (if alg == "torch" then iradonTorchOut sino th nm circle m else iradonSkOut sino th nm circle m)
         pure (Json.mkObj [("ok", floatsToJson out.flatten), ("size", Json.num (JsonNumber.fromNat out.length))])
+    | "radon_rect" =>
+        -- any H x W image, theta given or null (the default arange(180)); alg "sk" gets the image as
+        -- scikit-image gets it (already disc-masked by the harness)
+        let w ← natField j "w"
+        let h ← natField j "h"
+        let img := chunk (← floatList (← field j "img")) w
+        if img.length != h then throw "bad image" else
+        let th ← match fieldD j "theta" Json.null with
+          | Json.null => pure none
+          | t => (floatList t).map some
+        let out := if alg == "torch" then radonTorchRect img th else radonSkRect img th
+        pure (Json.mkObj [("ok", floatsToJson out.flatten), ("rows", Json.num (JsonNumber.fromNat out.length))])
+    | "iradon_e" =>
+        -- the call as made: raw filter argument ("none" = Python None), theta of any length or null,
+        -- optional output size; the answer is a reconstruction or an exception class
+        let n ← natField j "n"
+        let sino := chunk (← floatList (← field j "sino")) n
+        let th ← match fieldD j "theta" Json.null with
+          | Json.null => pure none
+          | t => (floatList t).map some
+        let name ← strField j "filter"
+        let circle ← boolField j "circle"
+        let out ← match fieldD j "out" Json.null with
+          | Json.null => pure none
+          | o => (o.getNat?).map some
+        match (if alg == "torch" then iradonTorchE sino th out name circle else iradonSkE sino th out name circle) with
+        | .ok r => pure (Json.mkObj [("ok", floatsToJson r.flatten), ("size", Json.num (JsonNumber.fromNat r.length))])
+        | .error e => pure (errJson e)
     | _ => throw s!"bad op {op}" : Except String Json) with
   | .ok r => (st, r)
   | .error e => (st, errJson s!"driver:{e}")
